@@ -37,10 +37,24 @@ where
     F: load::FileSystem,
 {
     loader.borrow().load(|_path, _ctx, entry| {
-        if let LedgerEntry::Txn(txn) = entry {
-            for posting in &txn.posts {
-                ctx.accounts.ensure(&posting.account);
+        match entry {
+            LedgerEntry::Txn(txn) => {
+                for posting in &txn.posts {
+                    ctx.accounts.ensure(&posting.account);
+                }
             }
+            // A declared alias must resolve to its canonical account, as in `process`.
+            // Conflicting declarations are reported by book-keeping, not by this listing.
+            LedgerEntry::Account(account) => {
+                if let Ok(canonical) = ctx.accounts.insert_canonical(&account.name) {
+                    for detail in &account.details {
+                        if let crate::syntax::AccountDetail::Alias(alias) = detail {
+                            let _ = ctx.accounts.insert_alias(alias, canonical);
+                        }
+                    }
+                }
+            }
+            _ => {}
         }
         Ok::<(), load::LoadError>(())
     })?;
